@@ -4,7 +4,7 @@ from .base import END
 
 ELEMENTWISE = {   # kind -> (index of the element-list argument in the op, number of prefix steps)
     'cfi_decoded_seq': (2, 1), 'lineprog_seq': (1, 0), 'ehabi_seq': (2, 1), 'sym_by_name_held': (2, 1),
-    'aranges_lookup': (1, 1), 'pub_get': (2, 0),
+    'aranges_lookup': (1, 1), 'pub_get': (2, 0), 'cu_containing_seq': (1, 0), 'session': (2, 1),
 }
 
 CORE_KINDS = set('''sec_iter sec_get sec_by_name sec_index has_sec num_sec seg_iter seg_get num_seg
@@ -12,7 +12,7 @@ sym_num sym_get sym_iter sym_by_name sym_by_name_held cu_iter cu_at cu_containin
 die_at_info die_children die_siblings die_parent die_parent_chain die_ref lineprog_seq cfi_entries
 cfi_decoded_seq'''.split())
 
-LUT_KINDS = ['cu_containing', 'cu_at', 'cu_iter', 'die_at_info', 'aranges_lookup', 'aranges_entries',
+LUT_KINDS = ['cu_containing', 'cu_containing_seq', 'cu_at', 'cu_iter', 'die_at_info', 'aranges_lookup', 'aranges_entries',
              'pub_items', 'pub_get', 'pub_headers', 'lut_die', 'die_top']
 
 
@@ -90,7 +90,7 @@ class Gen:
             k.append('dwarf_link')
         d = self.dw
         if d and d.get('unit_meta'):
-            k += ['cu_iter', 'cu_at', 'cu_containing', 'die_top', 'die_iter', 'die_at', 'die_at_info', 'die_children',
+            k += ['cu_iter', 'cu_at', 'cu_containing', 'cu_containing_seq', 'die_top', 'die_iter', 'die_at', 'die_at_info', 'die_children',
                   'die_siblings', 'die_parent', 'die_parent_chain', 'die_path', 'abbrev', 'lineprog_seq', 'dwarf_again']
             if any(m['refs'] for m in d['unit_meta']):
                 k.append('die_ref')
@@ -125,9 +125,135 @@ class Gen:
                     break
             if d.get('tu_meta'):
                 k += ['tu_iter', 'tu_by_sig', 'die_by_sig', 'tu_die_iter']
+        # held-object sessions
+        if self.by_cls('SymbolTableSection'):
+            k.append('session:symtab')
+        if [w for w in c['tags'] if w[0] == 'sec']:
+            k.append('session:dynsec')
+        if [w for w in c['tags'] if w[0] == 'seg']:
+            k.append('session:dynseg')
+        if c['relocs']:
+            k.append('session:rel')
+        if self.by_cls('GNUVerDefSection', 'GNUVerNeedSection'):
+            k.append('session:ver')
+        if self.by_cls('ELFHashSection', 'GNUHashSection'):
+            k.append('session:hash')
+        if d and d.get('unit_meta') and any(m['flat'] for m in d['unit_meta']):
+            k += ['session:cu', 'session:die', 'session:lineprog']
+        if d and d.get('cfi') and any(d['cfi'].values()):
+            k.append('session:cfi')
+        if d and any(v for v in d['pub'].values()):
+            k.append('session:lut')
+        if d and d.get('tu_meta'):
+            k.append('session:tu')
         return sorted(set(k))
 
     # -------------------------------------------------------------------------------
+    def draw_session(self, ttype):
+        r = self.r
+        c = self.cat
+        sm = self.sm
+        d = self.dw
+        nq = r.randrange(2, 6)
+
+        def sym_queries(syms, names, base=0):
+            n = len(syms or [])
+            qs = [['num_symbols'], ['iter_symbols', _take(r, n)], ['get_symbol_by_name', _names(r, [x for x in names if x])],
+                  ['get_symbol_by_name', _names(r, [x for x in names if x])]]
+            if n:
+                qs += [['get_symbol', base + r.randrange(n)], ['get_symbol', base + n - 1]]
+            return qs
+
+        def dyn_queries(tags):
+            tags = tags or []
+            tnames = sorted(set(t[1][1][1] for t in tags if isinstance(t[1][1][1], str)))
+            qs = [['num_tags'], ['iter_tags', r.choice([None] + tnames), _take(r, len(tags))],
+                  ['get_table_offset', r.choice(['DT_STRTAB', 'DT_SYMTAB', 'DT_HASH', 'DT_GNU_HASH', 'DT_RELA', 'DT_REL', 'DT_JMPREL'])],
+                  ['reltabs']]
+            if tags:
+                qs += [['get_tag', r.randrange(len(tags))], ['get_tag', len(tags) - 1]]
+            return qs
+        if ttype == 'symtab':
+            m = r.choice(self.by_cls('SymbolTableSection'))
+            cand = sym_queries(c['symbols'].get(m['i']), c['sym_names'].get(m['i'], []))
+            target = ['sec', m['i']]
+        elif ttype == 'dynsec':
+            w = r.choice(sorted(x for x in c['tags'] if x[0] == 'sec'))
+            cand = dyn_queries(c['tags'][w])
+            target = list(w)
+        elif ttype == 'dynseg':
+            w = r.choice(sorted(x for x in c['tags'] if x[0] == 'seg'))
+            cand = dyn_queries(c['tags'][w]) + sym_queries(c['dynseg_syms'].get(w[1]), c['dynseg_names'].get(w[1], []))
+            target = list(w)
+        elif ttype == 'rel':
+            i = r.choice(sorted(c['relocs']))
+            n = len(c['relocs'][i] or [])
+            cand = [['num_relocations'], ['iter_relocations', _take(r, n)]]
+            if n:
+                cand += [['get_relocation', r.randrange(n)], ['get_relocation', n - 1], ['get_relocation', 0]]
+            target = ['sec', i]
+        elif ttype == 'ver':
+            m = r.choice(self.by_cls('GNUVerDefSection', 'GNUVerNeedSection'))
+            cand = [['num_versions'], ['versions', _take(r, 3)], ['get_version', r.choice([0, 1, 2, 3, 4, 7])],
+                    ['get_version', r.choice([1, 2, 99])]]
+            if m['cls'] == 'GNUVerNeedSection':
+                cand.append(['has_indexes'])
+            target = ['sec', m['i']]
+        elif ttype == 'hash':
+            m = r.choice(self.by_cls('ELFHashSection', 'GNUHashSection'))
+            names = []
+            for i2, nm in c['sym_names'].items():
+                if sm[i2]['type'] == 'SHT_DYNSYM':
+                    names = [x for x in nm if x]
+            cand = [['get_number_of_symbols']] + [['get_symbol', _names(r, names)] for _ in range(4)]
+            target = ['sec', m['i']]
+        elif ttype == 'cu':
+            m = self._unit()
+            cand = [['get_top_DIE'], ['iter_DIEs', _take(r, len(m['flat']))], ['size'], ['get_DIE_from_refaddr', self._die_off(m)],
+                    ['get_DIE_from_refaddr', self._die_off(m)]]
+            if m['abbrev_codes']:
+                cand.append(['abbrev', r.choice(m['abbrev_codes'])])
+            target = ['cu', m['off']]
+        elif ttype == 'die':
+            m = self._unit()
+            o = self._die_off(m, lambda o, cc: cc[4] is not None)
+            if o is None:
+                return None
+            cand = [['iter_children', _take(r, 4)], ['get_parent'], ['get_full_path'], ['attrs'], ['iter_children', None]]
+            if m['parent_of'] and m['parent_of'].get(o) is not None:
+                cand.append(['iter_siblings', _take(r, 4)])
+            refs = [x for x in m['refs'] if x[0] == o]
+            if refs:
+                cand.append(['get_DIE_from_attribute', r.choice(refs)[1]])
+            target = ['die', m['off'], o]
+        elif ttype == 'lineprog':
+            m = r.choice(d['unit_meta'])
+            cand = [['header'], ['get_entries'], ['get_entries'], ['header']]
+            target = ['lineprog', m['off']]
+            nq = r.randrange(2, 4)
+        elif ttype == 'cfi':
+            kind = r.choice(sorted(k for k, v in d['cfi'].items() if v))
+            n = d['cfi'][kind]
+            cand = []
+            for _ in range(6):
+                k2 = r.choice([0, n - 1, r.randrange(n)])
+                cand.append(r.choice([['entry', k2], ['decoded', k2], ['decoded', k2]]))
+            target = ['cfi', kind]
+        elif ttype == 'lut':
+            which = r.choice([w for w in ('names', 'types') if d['pub'].get(w)])
+            items = d['pub'][which]
+            names = [x[0] for x in items]
+            cand = [['get', _names(r, names)], ['get', _names(r, names)], ['items', _take(r, len(items))], ['get_cu_headers'], ['len'], ['keys']]
+            target = ['lut', which]
+        elif ttype == 'tu':
+            t = r.choice(d['tu_meta'])
+            cand = [['get_top_DIE'], ['iter_DIEs', _take(r, 6)], ['size'], ['get_DIE_from_refaddr', t['off'] + t['type_offset']]]
+            target = ['tu', t['sig']]
+        else:
+            raise AssertionError(ttype)
+        qs = [r.choice(cand) for _ in range(nq)]
+        return ['session', target, qs, ttype]
+
     def _unit(self, with_flat=True):
         us = [m for m in self.dw['unit_meta'] if m['flat']] if with_flat else self.dw['unit_meta']
         return self.r.choice(us) if us else None
@@ -149,6 +275,8 @@ class Gen:
         r = self.r
         c = self.cat
         sm = self.sm
+        if kind.startswith('session:'):
+            return self.draw_session(kind.split(':', 1)[1])
         if kind in ('num_sec', 'num_seg', 'machine_arch', 'has_ehabi', 'dwarf_link', 'aranges_entries'):
             return [kind]
         if kind == 'has_dwarf':
@@ -288,6 +416,14 @@ class Gen:
             x = r.choice([m['off'], m['off'] + 1, m['off'] + m['size'] - 1, m['off'] + r.randrange(max(1, m['size'])),
                           max(0, m['off'] - 1), min(size - 1, m['off'] + m['size']), r.randrange(max(1, size))])
             return [kind, x]
+        if kind == 'cu_containing_seq':
+            size = d['sec_sizes'].get('debug_info_sec') or 1
+            xs = []
+            for _ in range(r.randrange(3, 13)):
+                m = r.choice(d['unit_meta'])
+                xs.append(min(size - 1, max(0, r.choice([m['off'], m['off'] + 1, m['off'] + m['size'] - 1, m['off'] + m['size'],
+                                                         m['off'] - 1, m['die_off'], r.randrange(size)]))))
+            return [kind, xs]
         if kind in ('die_top', 'lineprog'):
             return [kind, r.choice(d['unit_meta'])['off']]
         if kind == 'die_iter':
@@ -418,6 +554,12 @@ class Gen:
         kinds = self.kinds
         if focus == 'lut':
             kinds = [k for k in kinds if k in LUT_KINDS]
+            # a file is a lookup-table workload only if it has a table or several units
+            d = self.dw
+            if not d or not d.get('unit_meta') or (len(d['unit_meta']) < 2 and d.get('aranges') is None and
+                                                   not any(v is not None for v in d['pub'].values())):
+                kinds = []
+            self.kinds = kinds
         out = []
         seen = set()
         if not kinds:
@@ -724,6 +866,23 @@ def _x_cu_containing(cat, op, obs):
     return _cmp('unit whose extent contains it', obs, 0, u)
 
 
+def _x_cu_containing_seq(cat, op, obs):
+    us, ms = _units(cat)
+    if us is None:
+        return
+    out = []
+    for i, x in enumerate(op[1]):
+        u, m = _unit_containing(cat, x)
+        if i >= len(obs):
+            break
+        if u is None:
+            if obs[i] and obs[i][0] != 'EXC':
+                out.append(('no unit extent contains it', i, ('EXC',), obs[i]))
+        elif obs[i] != u:
+            out.append(('unit whose extent contains it', i, u, obs[i]))
+    return out
+
+
 def _flat(m):
     return None if not m or m['flat'] is None else dict(m['flat'])
 
@@ -889,7 +1048,7 @@ _CROSS = {
     'sym_by_name_held': _x_sym_by_name_held, 'dyn_iter': _x_dyn_iter, 'dyn_get': _x_dyn_get, 'dyn_num': _x_dyn_num,
     'dynseg_sym_num': _x_dynseg_num, 'dynseg_sym_get': _x_dynseg_get, 'dynseg_sym_iter': _x_dynseg_iter,
     'dynseg_sym_by_name': _x_dynseg_by_name, 'rel_num': _x_rel_num, 'rel_get': _x_rel_get, 'rel_iter': _x_rel_iter,
-    'cu_iter': _x_cu_iter, 'cu_at': _x_cu_at, 'cu_containing': _x_cu_containing, 'die_top': _x_die_top,
+    'cu_iter': _x_cu_iter, 'cu_at': _x_cu_at, 'cu_containing': _x_cu_containing, 'cu_containing_seq': _x_cu_containing_seq, 'die_top': _x_die_top,
     'die_iter': _x_die_iter, 'die_at': _x_die_at, 'die_at_info': _x_die_at_info, 'die_children': _x_die_children,
     'die_parent': _x_die_parent, 'die_parent_chain': _x_die_parent_chain, 'die_siblings': _x_die_siblings,
     'die_ref': _x_die_ref, 'aranges_lookup': _x_aranges_lookup, 'pub_items': _x_pub_items, 'lut_die': _x_lut_die,
